@@ -35,7 +35,9 @@ def collect(rec, acc):
     for u in rec["Upstream"].values(): collect(u, acc)
     return acc
 
+JUNK = "".join("STALE-LINE-OF-AN-EARLIER-REPORT %d\n" % i for i in range(4000))      # an earlier, longer report at the same path
 def convert(cli, d, fmt):
+    open(os.path.join(d, "out." + fmt), "w").write(JUNK)
     p = subprocess.run([cli, "audit2" + ("bash" if fmt == "sh" else fmt), "root.txt.audit.json", "out." + fmt], cwd=d, capture_output=True, text=True, timeout=60)
     try: return p.returncode, open(os.path.join(d, "out." + fmt)).read()
     except FileNotFoundError: return p.returncode, ""
@@ -88,6 +90,8 @@ def check_C20(tier):
             replay = dict(tree=c["tree"], format=fmt, output=text[-3000:] if fmt == "sh" else None)
             if rc != 0 or not text:
                 chk.violation("audit2%s failed (rc=%s) on a generated audit tree" % (fmt if fmt != "sh" else "bash", rc), replay); continue
+            if "STALE-LINE-OF-AN-EARLIER-REPORT" in text:
+                chk.violation("audit2%s does not replace an existing (longer) report at the output path: stale lines survive" % (fmt if fmt != "sh" else "bash"), replay); continue
             lst = listing(fmt, text)
             if fmt == "sh":
                 names = [x for x in lst if x]
@@ -123,12 +127,14 @@ def check_C20(tier):
             outs = [p for p in rr.snapshot if p.endswith(".txt") and p + ".audit.json" in rr.snapshot and "/" not in p]
             for target in sorted(outs):
                 chk.evaluations += 1
+                open(os.path.join(d, "recreate.sh"), "w").write(JUNK)
                 p = subprocess.run([cli, "audit2bash", target + ".audit.json", "recreate.sh"], cwd=d, capture_output=True, text=True)
                 script = open(os.path.join(d, "recreate.sh")).read()
                 rmtree(d2); os.makedirs(os.path.join(d2, "in"))
                 for f in os.listdir(os.path.join(d, "in")): shutil.copy(os.path.join(d, "in", f), os.path.join(d2, "in", f))
                 env = dict(os.environ, VERIF_HELPER=os.path.join(HARNESS, "cmdhelper.sh")); env.pop("VERIF_CMDLOG", None); env.pop("VERIF_CTL", None)
-                q = subprocess.run(["bash", "-c", script], cwd=d2, env=env, capture_output=True, text=True, timeout=60)
+                open(os.path.join(d2, "recreate.sh"), "w").write(script)
+                q = subprocess.run(["bash", "recreate.sh"], cwd=d2, env=env, capture_output=True, text=True, timeout=60)
                 want = rr.snapshot[target]["text"]
                 try: got = open(os.path.join(d2, target)).read()
                 except FileNotFoundError: got = None
@@ -161,6 +167,12 @@ def check_C20(tier):
                      dict(name="h", kind="cmd", ins=["in"], outs=["out"], outpaths={"out": "./h_{i:in|basename}"},
                           arg="false; echo \"v=${VERIF_SURELY_UNSET}.\" > {o:out}; cat {i:in} >> {o:out}")],
               edges=[zoo.E("s.out", "g.in"), zoo.E("g.out", "h.in")])
+    # a joined in-port: every member of the sub-stream is an ancestor of the joined task
+    w5 = dict(name="RC5", max=2, bufsize=4,
+              procs=[zoo.src("s", ["1", "2", "3"]), dict(name="a", kind="cmd", ins=["in"], outs=["out"], outdir="./"), dict(name="ss", kind="substream"),
+                     dict(name="cat", kind="cmd", ins=["in"], outs=["out"], joins={"in": " "}, outpaths={"out": "./merged.txt"}, arg="cat {i:in|join: } > {o:out}")],
+              edges=[zoo.E("s.out", "a.in"), zoo.E("a.out", "ss.in"), zoo.E("ss.substream", "cat.in")])
+    recreate(w5, "joined in-port fed by a sub-stream of three files")
     recreate(w4, "pipeline with a failing first stage, ';' list with a failing command, unset variable")
     chk.sample(dict(kind="audit-trees", exported_by_tlc=len(cases), converted=len(pick), example=pick[0]["tree"] if pick else None))
     return chk.finish()
